@@ -818,7 +818,7 @@ class World(BaseWorld):
             linesep=_real_os.linesep, fspath=_real_os.fspath, path=None, sep='/', error=OSError, environ={})
         opm = types.SimpleNamespace(
             join=_join, split=_split, getsize=self.fs.getsize, exists=self.fs.exists,
-            isdir=self.fs.isdir, expanduser=lambda p: p, expandvars=lambda p: p, dirname=posixpath.dirname,
+            isdir=self.fs.isdir, expanduser=posixpath.expanduser, expandvars=posixpath.expandvars, dirname=posixpath.dirname,
             basename=posixpath.basename)
         osm.path = opm
         tm = types.SimpleNamespace(time=self.time, sleep=self.sleep, monotonic=self.time)
